@@ -278,6 +278,7 @@ class Sim:
         self.quiescent_hits = 0
         self.fs = None
         self.on_hang = None
+        self.lost_wakeups = []
         self._main = None
 
     # ------------------------------------------------------------------
@@ -376,12 +377,34 @@ class Sim:
         """Nothing can run: quiescence hook, timers, hang, or deadlock.  Returns candidates."""
         live = [t for t in self.threads if t.started and not t.finished]
         parked = [t for t in live if t.blocked_on is not None and t.blocked_on[0] == "quiesce"]
+        self._check_lost_wakeups(live)
         if parked:
             self.quiescent_hits += 1
             t = parked[0]
             t.blocked_on = None
             return [t]
         timed = [t for t in live if t.deadline is not None]
+        return self._fire_timer(live, timed)
+
+    def _check_lost_wakeups(self, live):
+        # Lost wake-up detector: nothing can run, so the state is quiescent; a thread parked in
+        # wait_for(pred) whose predicate already holds was never notified (it could only proceed
+        # when its timeout expires).
+        if not self.lost_wakeups:
+            for t in live:
+                b = t.blocked_on
+                if b is not None and b[0] == "cond" and len(b) > 2 and b[2] is not None:
+                    try:
+                        holds = bool(b[2]())
+                    except Exception:
+                        holds = False
+                    if holds:
+                        self.lost_wakeups.append({"step": self.steps, "thread": t.name,
+                                                  "predicate": getattr(b[2], "__qualname__", "?"),
+                                                  "state": self.describe_blocked()})
+                        break
+
+    def _fire_timer(self, live, timed):
         if not timed:
             self._set_abort("deadlock", self.describe_blocked())
             return []
@@ -635,7 +658,7 @@ class SimCondition:
     def __exit__(self, *a):
         return self.lock.__exit__(*a)
 
-    def wait(self, timeout=None):
+    def wait(self, timeout=None, _pred=None):
         sim = self.sim
         me = sim.current
         if self.lock.owner is not me:
@@ -644,7 +667,7 @@ class SimCondition:
             raise sim.abort_exc()
         c = self.lock._release_save()
         try:
-            woken = sim.block(("cond", self), timeout)
+            woken = sim.block(("cond", self, _pred), timeout)
         finally:
             if not sim.aborting:
                 self.lock._acquire_restore(c)
@@ -659,9 +682,9 @@ class SimCondition:
                 left = end - sim.now
                 if left <= 0:
                     break
-                self.wait(left)
+                self.wait(left, _pred=predicate)
             else:
-                self.wait(None)
+                self.wait(None, _pred=predicate)
             result = predicate()
         return result
 
